@@ -29,8 +29,8 @@ ASSUMPTIONS = [
     "TypeError parity is judged on 'raises TypeError', not on the message; parameter names avoid binder internals",
 ]
 EXHAUSTIVE = {"quick": True, "thorough": True}
-PLAN = {"quick": dict(max_per_kind=1, variants=("function", "method", "instance", "decorated"), shapes_cap=60, extra_sigs=300),
-        "thorough": dict(max_per_kind=2, variants=("function", "method", "static", "classmethod", "instance", "class", "decorated"), shapes_cap=400, extra_sigs=6000)}
+PLAN = {"quick": dict(max_per_kind=1, variants=("function", "method", "instance", "decorated", "coroutine"), shapes_cap=60, extra_sigs=300),
+        "thorough": dict(max_per_kind=2, variants=("function", "method", "static", "classmethod", "instance", "class", "decorated", "coroutine"), shapes_cap=400, extra_sigs=6000)}
 FLOORS = {"quick": {"calls_compared": 20000, "rows_hit": 32, "binder_classes_hit": 14, "rejected_shapes_checked": 2500, "wrap_metadata_checked": 300,
                     "postponed_annotation_modules": 100, "calls_with_composite_annotations": 3000},
           "thorough": {"calls_compared": 600000, "rows_hit": 32, "binder_classes_hit": 15, "rejected_shapes_checked": 60000, "wrap_metadata_checked": 5000,
@@ -229,7 +229,16 @@ def _reference(sig, params, ba, ns):
 def observe(fn, args, kwargs):
     try:
         with quiet():
-            return ("ok", fn(*args, **kwargs))
+            r = fn(*args, **kwargs)
+            if inspect.iscoroutine(r):
+                # a coroutine function: what it returns is what driving the coroutine to its end gives
+                try:
+                    r.send(None)
+                    r.close()
+                    return ("raised", "RuntimeError", "coroutine did not finish")
+                except StopIteration as stop:
+                    r = stop.value
+            return ("ok", r)
     except TypeError:
         return ("typeerror",)
     except Exception as e:  # noqa: BLE001
@@ -251,6 +260,7 @@ def build_variants(src, params, variants, modname, future=False):
     # the same callee behind a functools.wraps decorator that changes the result: wrap()/bind() must call the DECORATED callable
     code += ("import functools\ndef _deco(fn):\n    @functools.wraps(fn)\n    def inner(*a, **k):\n        r = fn(*a, **k)\n"
              "        return {**r, '_decorated': True}\n    return inner\ndecorated = _deco(f)\n")
+    code += "async " + render(params, "coro") + "\n"
     code += "class Holder:\n"
     code += "\n".join("    " + l for l in render(params, "meth", first="self").splitlines()) + "\n"
     code += "    @staticmethod\n" + "\n".join("    " + l for l in render(params, "smeth").splitlines()) + "\n"
@@ -262,7 +272,7 @@ def build_variants(src, params, variants, modname, future=False):
     code += "class Klass:\n" + "\n".join("    " + l for l in init.splitlines()) + "\n"
     exec(compile(code, f"/verif/out/generated/{modname}.py", "exec", dont_inherit=True), mod.__dict__)
     h = mod.Holder()
-    allv = {"decorated": mod.decorated, "function": mod.f, "method": h.meth, "static": mod.Holder.smeth, "classmethod": mod.Holder.cmeth, "instance": h, "class": mod.Klass}
+    allv = {"coroutine": mod.coro, "decorated": mod.decorated, "function": mod.f, "method": h.meth, "static": mod.Holder.smeth, "classmethod": mod.Holder.cmeth, "instance": h, "class": mod.Klass}
     return {v: allv[v] for v in variants}, mod
 
 
@@ -307,7 +317,7 @@ def run_shard(sh):
                 try:
                     with quiet():
                         bound = binding.bind(target)
-                        wrapped = binding.wrap(getattr(mod, "f") if vname == "function" else target) if vname in ("function", "method", "instance", "decorated") else None
+                        wrapped = binding.wrap(getattr(mod, "f") if vname == "function" else target) if vname in ("function", "method", "instance", "decorated", "coroutine") else None
                 except Exception as e:  # noqa: BLE001
                     sh.violation("bind-raised", signature=src.splitlines()[0], variant=vname, exc=type(e).__name__, detail=str(e)[:200])
                     continue
